@@ -191,6 +191,31 @@ def getItem (t : List Int) (i : Int) : R Int :=
 /-- `b[lo:hi]` for `lo, hi ≥ 0` (shown by the translator) -/
 def sliceI (b : List α) (lo hi : Int) : List α := slice b lo.toNat hi.toNat
 
+/-- `a % b` with a divisor that may be zero -/
+def pymodE (a b : Int) : R Int := if b = 0 then .error .zeroDiv else .ok (pymod a b)
+
+/-- `a // b` with a divisor that may be zero -/
+def floordivE (a b : Int) : R Int := if b = 0 then .error .zeroDiv else .ok (floordiv a b)
+
+/-- `b[start::step]` (constants `start ≥ 0`, `step ≥ 1`): pass over `skip` elements, take one, pass over
+    `step - 1`, take one, … -/
+def getStride (step : Nat) : Nat → List α → List α
+  | _, [] => []
+  | 0, x :: xs => x :: getStride step (step - 1) xs
+  | k + 1, _ :: xs => getStride step k xs
+
+/-- the list `b` with the positions of `b[start::step]` replaced by `vals`, in order (for equal sizes) -/
+def setStride (step : Nat) : Nat → List α → List α → List α
+  | _, [], _ => []
+  | 0, x :: xs, [] => x :: xs
+  | 0, _ :: xs, v :: vs => v :: setStride step (step - 1) xs vs
+  | k + 1, x :: xs, vs => x :: setStride step k xs vs
+
+/-- `b[start::step] = vals` on a bytearray / list for a constant `step ≥ 2`: an extended slice keeps its size —
+    ValueError unless `len(vals)` equals the size of the slice -/
+def strideSetE (b : List α) (start step : Nat) (vals : List α) : R (List α) :=
+  if (getStride step start b).length = vals.length then .ok (setStride step start b vals) else .error .value
+
 /-- `sum(t)` -/
 def sum (t : List Int) : Int := t.foldl (· + ·) 0
 
